@@ -1,6 +1,7 @@
 // C16 — CBox / CSliceBox keep the published C layout: {instance, drop function}.
 use super::{CBox, CSliceBox};
 use core::mem::{align_of, size_of};
+use crate::trait_group::Opaquable;
 use std::boxed::Box;
 use std::vec::Vec;
 
@@ -66,6 +67,39 @@ fn p_cslicebox_view() {
     assert!(drops() as usize == n, "C16 releasing through the view drops every element exactly once");
     kani::cover!(n == 0, "empty");
     kani::cover!(n == 3, "non-empty");
+}
+struct Pz;
+impl Drop for Pz { fn drop(&mut self) { unsafe { DROPS += 1 } } }
+#[repr(align(64))]
+struct Pal { v: u32, heap: Box<u8> }
+impl Drop for Pal { fn drop(&mut self) { unsafe { DROPS += 1 } } }
+fn view_class<T: Send>(mk: fn() -> T, counted: bool) {
+    assert!(size_of::<CBox<T>>() == size_of::<BoxView<T>>(), "C16 CBox layout (any payload class)");
+    let b: CBox<T> = CBox::from(mk());
+    let view: BoxView<T> = unsafe { core::mem::transmute_copy(&b) };
+    core::mem::forget(b);
+    assert!(view.drop.is_some() && !view.instance.is_null() && (view.instance as usize) % align_of::<T>() == 0, "C16 instance pointer is a valid, aligned T*; drop function published (any payload class)");
+    unsafe { (view.drop.unwrap())(view.instance) };
+    assert!(drops() == counted as u32, "C16 view.drop(view.instance) releases the value exactly once (any payload class)");
+}
+#[kani::proof] fn p_cbox_view_class_zst_drop() { view_class::<Pz>(|| Pz, true); kani::cover!(true, "end"); }
+#[kani::proof] fn p_cbox_view_class_aligned() { view_class::<Pal>(|| Pal { v: 1, heap: Box::new(1) }, true); kani::cover!(true, "end"); }
+#[kani::proof] fn p_cbox_view_class_plain() { view_class::<[u64; 24]>(|| [5; 24], false); kani::cover!(true, "end"); }
+static mut FOREIGN_BOX_DROPS: u32 = 0;
+static mut FOREIGN_BOX_ARG: usize = 0;
+unsafe extern "C" fn foreign_box_drop(p: *mut u64) { FOREIGN_BOX_DROPS += 1; FOREIGN_BOX_ARG = p as usize; }
+#[kani::proof]
+fn p_cbox_foreign_built() {
+    // a box BUILT BY A C CALLER: Rust reads through instance and releases through the published function, once
+    let mut storage: u64 = kani::any();
+    let v0 = storage;
+    let view = BoxView::<u64> { instance: &mut storage, drop: Some(foreign_box_drop) };
+    let b: CBox<u64> = unsafe { core::mem::transmute_copy(&view) };
+    assert!(*b == v0, "C16 a box built from the published fields reads its instance");
+    let o = b.into_opaque();
+    drop(o);
+    unsafe { assert!(FOREIGN_BOX_DROPS == 1 && FOREIGN_BOX_ARG == &storage as *const u64 as usize, "C16 dropping it calls the published drop function once with the instance") };
+    kani::cover!(true, "end");
 }
 //@ prefix=canary kind=canary clause=vacuity canary
 #[kani::proof]
